@@ -27,6 +27,17 @@ let install register get =
     match get kv "op" with
     | "lstat" -> look_str (FsTree.lstat tree p) (fun k -> "res=ok kind=" ^ kletter k)
     | "stat" -> look_str (FsTree.stat tree p) (fun k -> "res=ok kind=" ^ kletter k)
+    | "glob" ->
+      (* pat = components "meta:all:n1,n2" joined by "/": what path.Match says about each component is given by the harness *)
+      let comps = List.map (fun cs -> match String.split_on_char ':' cs with
+        | [m; a; ns] -> { FsTree.cp_meta = (m = "1"); FsTree.cp_all = (a = "1");
+                          FsTree.cp_names = (if ns = "-" then [] else List.map (fun n -> nat_of_int (id n)) (String.split_on_char ',' ns)) }
+        | _ -> failwith ("bad component " ^ cs)) (String.split_on_char '/' (get kv "pat")) in
+      let r = if spec then FsTree.spec_glob tree (List.rev comps) else FsTree.c_glob tree (List.rev comps) in
+      (match r with
+       | None -> "skip"
+       | Some l -> let ents = List.sort compare (List.map str_of l) in
+                   "res=ok ents=" ^ (if ents = [] then "-" else String.concat ";" ents))
     | "walk" ->
       (* the client's traversal when the case is of kind fsop, filepath.Walk's specification when it is of kind fsspec *)
       (match p with [] -> "skip" | _ ->
